@@ -3,6 +3,7 @@ package rules
 import (
 	"fmt"
 	"go/ast"
+	"go/token"
 	"go/types"
 	"sort"
 	"strings"
@@ -515,10 +516,35 @@ func (c *Ctx) createLoop() {
 	// the name is derived from a hash that includes the collision counter, and the counter is incremented before retrying
 	inc := false
 	ast.Inspect(fi.Decl.Body, func(x ast.Node) bool {
-		if s, ok := x.(*ast.IncDecStmt); ok {
-			if st, ok := ast.Unparen(s.X).(*ast.StarExpr); ok {
-				if id, ok := st.X.(*ast.Ident); ok && types.TypeString(info.TypeOf(id), nil) == "*int32" {
-					inc = true
+		var target ast.Expr
+		switch s := x.(type) {
+		case *ast.IncDecStmt:
+			target = s.X
+		case *ast.AssignStmt:
+			if len(s.Lhs) == 1 && s.Tok != token.DEFINE {
+				target = s.Lhs[0]
+			}
+		}
+		if target == nil {
+			return true
+		}
+		if st, ok := ast.Unparen(target).(*ast.StarExpr); ok {
+			if id, ok := st.X.(*ast.Ident); ok && types.TypeString(info.TypeOf(id), nil) == "*int32" {
+				inc = true
+				// the counter moves only on a real collision: the existing revision's data differs from the candidate's.
+				// (Counting an equal revision as a collision changes the name the same template hashes to on the
+				// next reconcile: a duplicate revision is created and the pods are restarted.)
+				name := "createControllerRevision: " + types.ExprString(target) + " changes"
+				var want *gf.Formula
+				if existsID != nil && sent != nil {
+					if a, b := c.TryWantTerm(fn, x.Pos(), "$1.Data.Raw", existsID), c.TryWantTerm(fn, x.Pos(), "$1.Data.Raw", sent); a != nil && b != nil {
+						want = gf.Not(gf.FBool(gf.CallT("bytes.Equal", types.Typ[types.Bool], a, b)))
+					}
+				}
+				if want == nil {
+					c.Bad("C08.4-collision-only-when-data-differs", name, x.Pos(), "the collision counter is changed where the existing revision has not been read and compared yet")
+				} else {
+					c.Implies(an.StateBefore(x), want, "C08.4-collision-only-when-data-differs", name, x.Pos())
 				}
 			}
 		}
